@@ -42,13 +42,17 @@ class IntervalCounter:
 
 def zip_directory(source_directory, output=None):
     output = output or f"{source_directory}.zip"
-    with zipfile.ZipFile(output, "w", zipfile.ZIP_DEFLATED) as f:
+    # The archive is built beside its final name and moved into place once it is complete, so a
+    # process that dies while zipping never leaves a truncated archive where `restore` looks.
+    temporary = f"{output}.tmp"
+    with zipfile.ZipFile(temporary, "w", zipfile.ZIP_DEFLATED) as f:
         for root, dirs, files in os.walk(source_directory):
             for file in files:
                 f.write(
                     os.path.join(root, file),
                     os.path.join(root[len(str(source_directory)) :], file),
                 )
+    os.replace(temporary, output)
 
 
 def open_(filename, *flags):
